@@ -5,3 +5,7 @@ package frugal
 // verifSubjectID is a verification hook helper; it is compiled to nothing
 // unless the `verif` build tag is set.
 func verifSubjectID(subject string) uint64 { return 0 }
+
+// verifServerID is a verification hook helper; compiled to nothing unless the
+// `verif` build tag is set.
+func verifServerID(f *fNatsServer) uint64 { return 0 }
